@@ -21,7 +21,7 @@ LEVEL = 'model_checking'
 PREFORK_WORLD = {}
 RULE = ('state = (route, template, mode, option vector, clock, injected position, injected string); every vector of '
         'the stated levels is requested; non-trivial = a 200 manifest/patch body that was parsed and checked '
-        '(distinct by URL, clock and stored strings)')
+        '(distinct by URL, clock and stored strings); history pairs: state = (session a, session b), every ordered pair, each in a process forked for it')
 ASSUMPTIONS = [
     'only 200 responses are judged (a 4xx for a hostile value is fine; 5xx is C16)',
     'id uniqueness is demanded among elements that carry an id',
